@@ -21,7 +21,7 @@ CLAIMS = {
          "Trusted: vf/oracle_graph.py (self-checked on known treewidths), Hypothesis. Fresh argument copy per call.",
          "DESIGN.md section 5, C10"),
  'C01': ("Hypothesis-generated non-recursive grammar specs vs. independent numpy grammar evaluator (differential oracle), all semirings/dtypes/methods",
-         "Generated non-recursive FGGs covering every edge shape the statement lists (measured class histogram in the evidence) are "
+         "Generated non-recursive FGGs covering every edge shape the statement lists (measured class histogram in the evidence; dense and patterned factor weights, the latter also with defaults other than the semiring zero) are "
          "evaluated by sum_product/sum_products/singleton_fgg in sampled semiring x dtype x method x j_precompute configurations and "
          "compared entrywise with an evaluator written from the definition (all assignments of all rhs nodes, 0*inf=0), which is itself "
          "cross-checked against explicit derivation enumeration + brute-force summation at start-up. Sampled, bounded sizes; no proof.",
@@ -39,7 +39,7 @@ CLAIMS = {
          "For generated recursive (log-weights <= 0, incl. weight-one cycles) and non-recursive grammars and every start assignment with a finite "
          "optimum, the FGGDerivation returned by viterbi is checked recursively for well-formedness (rule membership, one child per nonterminal "
          "edge, total in-range assignment, externals agree with the parent), its own log-weight and the log-weight of derive()'s graph+assignment "
-         "must equal the exact Kleene max-plus optimum and the Viterbi-semiring sum_product. Any exception is a failure. Sampled, bounded sizes.",
+         "must equal the exact Kleene max-plus optimum and the Viterbi-semiring sum_product; a third of the grammars have weights that require gradients. Any exception is a failure. Sampled, bounded sizes.",
          "Trusted: vf/oracle_fgg.py NumEval(MaxPlus) Kleene reference, the predicate in vf/props/c04.py, Hypothesis.",
          "DESIGN.md section 5, C04"),
  'C05': ("Hypothesis-generated grammars x 3 methods x 5 entry points; round-trip oracle (own inlining of fresh nonterminals must reproduce each rule, identity then isomorphism) + differential sum-product + instrumentation of the method argument",
@@ -125,7 +125,7 @@ CLAIMS = {
          "replace_edge call is checked against the statement clause by clause (only that edge removed, externals identified with attachment nodes in order, "
          "all other nodes/edges copied once as fresh objects with unused ids, labels and attachment order kept, graph/ext/replacement otherwise untouched; wrong "
          "type => ValueError and no change); the final graphs of all orders and of an independent expansion coincide under provenance naming; derive() yields an "
-         "isomorphic graph with a total assignment whose weight product equals the product over rule instances (also when equal sub-derivations are one shared object). Sampled.",
+         "isomorphic graph with a total assignment whose weight product equals the product over rule instances (also when equal sub-derivations are one shared object, and when a right-hand side's ext was reassigned after its type had been read). Sampled.",
          "Trusted: vf/oracle_fgg.py expand (independent replacement), vf/iso.py, Hypothesis. Right-hand sides have distinct external nodes.",
          "DESIGN.md section 5, C15"),
  'C20': ("Hypothesis-generated domains, weight arguments of right and wrong shapes and legal/illegal bindings: round-trip, acceptance/rejection and before/after-table oracles",
@@ -144,7 +144,7 @@ CLAIMS = {
          "Trusted: the predicate/signature/DP code in vf/props/c17.py, Hypothesis; the pair->name map is read via fggs.conjunction.nonterminal_pairs and then checked.",
          "DESIGN.md section 5, C17"),
  'C16': ("model-based stateful testing: Hypothesis-generated operation sequences interpreted against a pool of Graph/FactorGraph/HRG/FGG objects with public-accessor snapshots before and after every call (history invariants)",
-         "Sequences of up to 40 (60) public API calls -- including calls that must be rejected: duplicate ids (against the graph and among the arguments of one call), 'twin' nodes/edges re-using an id with other "
+         "Sequences of up to 40 (60) public API calls -- including calls that must be rejected: duplicate ids (against the graph and among the arguments of one call), edges of the wrong arity, 'twin' nodes/edges re-using an id with other "
          "content, conflicting label types, terminal start symbols, wrong arity/domains, ill-shaped weights -- are applied to a pool of live objects. After "
          "every step: structural invariants of every object, failure atomicity (a raising call changes nothing), non-interference (only the target "
          "changes, so copies are independent, also under in-place changes of factor weights), copy == original incl. tables/domains/weights, and == is "
@@ -152,7 +152,7 @@ CLAIMS = {
          "Trusted: the snapshot/invariant code in vf/props/c16.py, Hypothesis. Graphs handed to a rule are frozen (stated precondition).",
          "DESIGN.md section 5, C16"),
  'C18': ("model-based stateful testing: Hypothesis-generated query sequences on shared objects with deep before/after snapshots (purity invariant) and memoised first results (reproducibility); in-place operations on clones vs. source snapshots",
-         "A grammar is built once (dense/patterned weights incl. defaults other than the semiring zero, with or without requires_grad, implicit/explicit ids) and 4-10 queries -- sum_product/sum_products in all "
+         "A grammar is built once (dense/patterned weights incl. defaults other than the semiring zero, with or without requires_grad; snapshots also cover the attribute names of the argument objects and the process-wide torch state, implicit/explicit ids) and 4-10 queries -- sum_product/sum_products in all "
          "semirings and methods, viterbi, the three factorize entry points x 3 methods, conjoin_hrgs (incl. a pair of grammars over shared skeletons), fgg_to_json/"
          "hrg_to_json -- are run in a drawn order with repetitions; every argument's deep snapshot (object identities, ids, tables, storage bytes, strides, "
          "offsets, patterns, defaults, requires_grad, grad is None) must be unchanged by every call and every repeated query must return the same result "
